@@ -304,6 +304,7 @@ Proof.
   cbn [map]. unfold zsum in *. cbn [fold_right].
   assert (Hrow := H row (or_introl eq_refl)). cbv zeta in Hrow. apply andb_true_iff in Hrow. destruct Hrow as [Hrow _].
   unfold l1_row in Hrow. cbv zeta in Hrow. apply andb_true_iff in Hrow. destruct Hrow as [Hrow _].
+  apply andb_true_iff in Hrow. destruct Hrow as [Hrow _].
   apply andb_true_iff in Hrow. destruct Hrow as [_ Hlen]. apply lengths_ok_prop in Hlen.
   specialize (IH (fun r Hr => H r (or_intror Hr))). lia.
 Qed.
